@@ -20,7 +20,7 @@ ASSUMPTIONS = [
 ]
 BUDGET = {
     'quick': {'enum': ['k1', 'k2', 'hooks', 'wc'], 'hyp': 4000, 'shards': 8},
-    'thorough': {'enum': ['k1', 'k2', 'k3', 'hooks', 'wc'], 'hyp': 160000, 'shards': 16},
+    'thorough': {'enum': ['k1', 'k2', 'k3', 'k4w', 'hooks', 'wc'], 'hyp': 160000, 'shards': 16},
 }
 
 ALPHABET = [['pause', 'p'], ['play'], ['kill', 'kt'], ['resume', 1], ['fail', 'f']]
@@ -43,6 +43,12 @@ LATE3 = {'steps': [gen.S([['soon', 'raise', 'l3']], ['wait', 1, None, None]), ge
 
 
 def enumerate_cases(tier, scope):
+    if scope == 'k4w':
+        for name in ('wait1', 'waitwait', 'async2', 'late3'):
+            prog = {'late3': LATE3}.get(name) or gen.CATALOGUE[name]
+            for sched in gen.schedules(ALPHABET, 4, 1):
+                yield {'program': prog, 'schedule': [['tick', 1]] + sched, 'tag': f'k4w:{name}'}
+        return
     if scope == 'wc':
         for name in gen.WC_CATALOGUE:
             for k in (1, 2):
